@@ -497,8 +497,10 @@ def parser_space(tier, commonmark_only=False):
         parts += inline_wide_space(4, (0, 2), commonmark_only)
         parts += inline_wide_space(3, (1, 3, 4), commonmark_only)
     else:
-        parts = [block_space("core", 4), block_space(wide, 2), ProductSpace("B(mli,3)", SIGMA_MLI, 3)]
-        parts += inline_space(4, (0,)).parts
-        parts += inline_wide_space(3, (0, 1, 2, 3, 4), commonmark_only)
+        # quick: the full core alphabet to depth 3, a 19-line core (without the lines that differ
+        # only inline or that the other spaces cover) to depth 4
+        core19 = [l for l in SIGMA_CORE if l not in ("   b", "*a*", "[l]", "a  ", "===")]
+        parts = [block_space("core", 3), ProductSpace("B(core19,4)", core19, 4, minlen=4), block_space(wide, 2), ProductSpace("B(mli,3)", SIGMA_MLI, 3)]
+        parts += inline_wide_space(3, (0, 2, 3), commonmark_only)
     parts += focus_spaces(tier)
     return UnionSpace(f"parser-{tier}", parts)
